@@ -4,5 +4,4 @@ NA = {
  "C03": "Relates two whole-program runs (parse, format, parse again) over unbounded text and Go string building; it needs the tree specification that C02 lacks plus a functional specification of the layout engine. Not reached with contracts; nothing is claimed (DESIGN.md §0.7).",
  "C09": "Comment-insensitivity is an equality of two whole-program runs on inputs that differ in trivia; it needs the parser tree specification (C02) and a contract on every consumer of Meta comments. Only the ignore-comment consumer is under contract (C12). Not reached; nothing is claimed (DESIGN.md §0.7).",
  "C15": "Comment preservation relates the parser's comment attachment to the formatter's output text over unbounded input; it needs a multiset specification of comments through parse and format, which string-level SMT reasoning over Go string building does not decide. Not reached; nothing is claimed (DESIGN.md §0.7).",
- "C18": "Serialisability and data-race freedom under concurrent requests/plugins are properties of interleavings; contracts on sequential SSA (this technique) are silent on concurrency, goroutines are outside the modelled subset, and a lock-discipline scan would not decide the statement. Not applicable to this technique (DESIGN.md §0.7).",
 }
